@@ -640,7 +640,7 @@ def opp_case(ctx, r, model, mode=None):
         if mode != "resync" and frames != good:
             ctx.fail("opp-delivery", case, {"got": [f.hex() for f in frames], "want": [f.hex() for f in good]})
             return
-        if mode == "resync" and frames[-len(good):] != good:
+        if mode == "resync" and frames[len(frames) - len(good):] != good:      # (frames[-0:] would be ALL frames)
             ctx.fail("opp-no-resync", case, {"got": [f.hex() for f in frames], "want_tail": [f.hex() for f in good]})
             return
         if mode != "resync" or True:
